@@ -1,6 +1,9 @@
 package stanza
 
-import "encoding/xml"
+import (
+	"encoding/xml"
+	"errors"
+)
 
 // ============================================================================
 // Generic / unknown content
@@ -25,9 +28,12 @@ type Attr struct {
 	V string
 }
 
-// UnmarshalXML is a custom unmarshal function used by xml.Unmarshal to
-// transform generic XML content into hierarchical Node structure.
-func (n *Node) UnmarshalXML(d *xml.Decoder, start xml.StartElement) error {
+// maxNodeDepth bounds the nesting of generic nodes, like encoding/xml bounds its own recursion.
+const maxNodeDepth = 10000
+
+// setStart records the element name and attributes of a node.
+func (n *Node) setStart(start xml.StartElement) {
+	n.XMLName = start.Name
 	// Assign	"n.Attrs = start.Attr", without repeating xmlns in attributes:
 	for _, attr := range start.Attr {
 		// Do not repeat xmlns, it is already in XMLName
@@ -35,8 +41,37 @@ func (n *Node) UnmarshalXML(d *xml.Decoder, start xml.StartElement) error {
 			n.Attrs = append(n.Attrs, attr)
 		}
 	}
-	type node Node
-	return d.DecodeElement((*node)(n), &start)
+}
+
+// UnmarshalXML is a custom unmarshal function used by xml.Unmarshal to
+// transform generic XML content into hierarchical Node structure.
+// It walks the tokens with an explicit stack instead of recursing, so that the
+// nesting depth of the input cannot exhaust the goroutine stack.
+func (n *Node) UnmarshalXML(d *xml.Decoder, start xml.StartElement) error {
+	n.setStart(start)
+	stack := []*Node{n}
+	for len(stack) > 0 {
+		t, err := d.Token()
+		if err != nil {
+			return err
+		}
+		cur := stack[len(stack)-1]
+		switch tt := t.(type) {
+		case xml.StartElement:
+			if len(stack) >= maxNodeDepth {
+				return errors.New("xmpp: generic node nested too deeply")
+			}
+			cur.Nodes = append(cur.Nodes, Node{})
+			child := &cur.Nodes[len(cur.Nodes)-1]
+			child.setStart(tt)
+			stack = append(stack, child)
+		case xml.CharData:
+			cur.Content += string(tt)
+		case xml.EndElement:
+			stack = stack[:len(stack)-1]
+		}
+	}
+	return nil
 }
 
 // MarshalXML is a custom XML serializer used by xml.Marshal to serialize a
